@@ -15,14 +15,17 @@ git apply $OUT/patch.diff || { echo "APPLY-FAILED"; exit 2; }
 echo "== build"; cargo build --offline 2>&1 | tail -2; cargo build --offline --features unstable 2>&1 | tail -2
 echo "== suite with change"
 cargo nextest run --workspace --no-fail-fast --tool-config-file pb:/w/lib/nextest.toml --profile pb --test-threads 8 --offline 2>&1 | grep -E "Summary|^\s+FAIL" | sort -u
-DEMO=$(ls -d $WT/demo_$K 2>/dev/null | head -1)
+DEMO=$(ls -d $WT/demo_$K $OUT/demo_$K 2>/dev/null | head -1)
+# a demonstration is either a program (cargo run) or a test crate (cargo test)
+DEMOCMD="cargo run --offline --release"
+if [ -n "$DEMO" ] && [ ! -f $DEMO/src/main.rs ] && [ -d $DEMO/tests ]; then DEMOCMD="cargo test --offline --release"; fi
 if [ -n "$DEMO" ]; then
-  echo "== demo with change"; (cd $DEMO && timeout 900 cargo run --offline --release 2>&1 | tail -5; echo "DEMO-WITH rc=${PIPESTATUS[0]}")
+  echo "== demo with change"; (cd $DEMO && timeout 1800 $DEMOCMD 2>&1 | tail -5; echo "DEMO-WITH rc=${PIPESTATUS[0]}")
 fi
 echo "== check with change"
 (cd /verif && H2V_REPO=$WT timeout 3000 bin/check $PROP --tier quick 2>&1 | tail -15; echo "CHECK-WITH rc=${PIPESTATUS[0]}")
 git checkout -- src tests 2>/dev/null
 if [ -n "$DEMO" ]; then
-  echo "== demo without change"; (cd $DEMO && timeout 900 cargo run --offline --release 2>&1 | tail -3; echo "DEMO-WITHOUT rc=${PIPESTATUS[0]}")
+  echo "== demo without change"; (cd $DEMO && timeout 1800 $DEMOCMD 2>&1 | tail -3; echo "DEMO-WITHOUT rc=${PIPESTATUS[0]}")
 fi
 echo "== done"
